@@ -61,6 +61,8 @@ impl PkeSealingVersion for V3 {
         let ak = ak.finalize();
 
         let mut edk = key.0;
+        #[cfg(paseto_verif)]
+        let n = crate::verif::ctr_block(n);
         ctr::Ctr128BE::<aes::Aes256>::new(&ek, &n).apply_keystream(&mut edk);
 
         let mut tag = hmac::Hmac::<sha2::Sha384>::new_from_slice(&ak).unwrap();
@@ -130,6 +132,8 @@ impl PkeUnsealingVersion for V3 {
         ek.update(pk.as_bytes());
         let (ek, n) = ek.finalize().split();
 
+        #[cfg(paseto_verif)]
+        let n = crate::verif::ctr_block(n);
         ctr::Ctr128BE::<aes::Aes256>::new(&ek, &n).apply_keystream(edk);
 
         Ok(LocalKey(*edk))
